@@ -11,8 +11,8 @@
 using namespace FIX8;
 using namespace sim;
 
-struct Case { int pk, acc, n; unsigned mask; int B, E; };
-static std::string case_str(const Case& c) { char b[96]; snprintf(b, sizeof b, "%d:%d:%d:%u:%d:%d", c.pk, c.acc, c.n, c.mask, c.B, c.E); return b; }
+struct Case { int pk, acc, n; unsigned mask; int B, E; int B2 = -1, E2 = 0; };	// B2 >= 0: a second ResendRequest follows the first
+static std::string case_str(const Case& c) { char b[128]; int k = snprintf(b, sizeof b, "%d:%d:%d:%u:%d:%d", c.pk, c.acc, c.n, c.mask, c.B, c.E); if (c.B2 >= 0) snprintf(b + k, sizeof b - k, ":%d:%d", c.B2, c.E2); return b; }
 static const char *PKN[] = { "none", "mem", "file" };
 
 static void run_case(vh::Run& R, const Case& c)
@@ -42,78 +42,82 @@ static void run_case(vh::Run& R, const Case& c)
 		if (c.E > last) tags.push_back("range:ends_after_latest");
 	}
 	std::string tagstr; for (auto& t : tags) tagstr += (tagstr.empty() ? "" : ",") + t;
+	if (c.B2 >= 0) tags.push_back("second_request");
 	R.begin_case(id, tagstr);
 	if (c.pk != 0 && c.mask && c.B >= 1) ++R.nontrivial;
-	w.feed(w.inbound("2", w.ses->nr(), "7=" + std::to_string(c.B) + SOH + "16=" + std::to_string(c.E) + SOH));
-	bool garbage = false; std::vector<std::string> reply = w.take_out(&garbage);
-	sim::advance_ms(1000);
-	w.ses->send(World::nos("NEXT"));
-	std::vector<std::string> after = w.take_out(&garbage);
+	if (R.verbose()) { fprintf(stderr, "case %s persist=%s n=%d stored={", id.c_str(), PKN[c.pk], c.n); for (auto& p : sent) fprintf(stderr, "%ld ", p.first); fprintf(stderr, "}\n"); }
 	const bool verbose = R.verbose();
-	if (verbose) {
-		fprintf(stderr, "case %s persist=%s n=%d stored={", id.c_str(), PKN[c.pk], c.n); for (auto& p : sent) fprintf(stderr, "%ld ", p.first);
-		fprintf(stderr, "} latest=%ld ResendRequest(%d,%d)\n", last, c.B, c.E);
-		for (auto& m : reply) fprintf(stderr, "  REPLY %s\n", vh::show(m).c_str());
-		for (auto& m : after) fprintf(stderr, "  NEXT  %s\n", vh::show(m).c_str());
-	}
+	std::vector<std::string> reply; bool garbage = false; int cur_B = c.B, cur_E = c.E; long cur_last = last;
 	auto V = [&](const std::string& clause, const std::string& mode, const std::string& obs, const std::string& exp) {
 		R.outcome("viol:" + mode);
-		std::string d = "stored={"; for (auto& p : sent) d += std::to_string(p.first) + " "; d += "} latest=" + std::to_string(last) + " request=(" + std::to_string(c.B) + "," + std::to_string(c.E) + ") reply:";
+		std::string d = "stored={"; for (auto& p : sent) d += std::to_string(p.first) + " "; d += "} latest=" + std::to_string(cur_last) + " request=(" + std::to_string(cur_B) + "," + std::to_string(cur_E) + ")" + (cur_B != c.B || cur_E != c.E || (c.B2 >= 0 && &reply == nullptr) ? " (second request)" : "") + " reply:";
 		for (auto& m : reply) d += " [35=" + tagval(m, 35) + " 34=" + tagval(m, 34) + (hastag(m, 36) ? " 36=" + tagval(m, 36) : "") + "]";
 		R.viol(clause, mode, tags, id, obs, exp, d);
 	};
-	if (garbage) { V("reply-wellformed", "wire-unparseable", "", ""); goto done; }
-	{
-		// the persister the session uses: without one nothing is stored
-		std::map<long, std::string> store = c.pk ? sent : std::map<long, std::string>();
+	// the persister the session uses: without one nothing is stored
+	const std::map<long, std::string> store = c.pk ? sent : std::map<long, std::string>();
+	// one request and the judgement of its reply; n_send_now = next new number before the request; returns the next new number after it, or -1 on a violation
+	auto request = [&](int B, int E, long n_send_now, const char *which) -> long {
+		cur_B = B; cur_E = E; const long last_now = n_send_now - 1; cur_last = last_now;
+		w.feed(w.inbound("2", w.ses->nr(), "7=" + std::to_string(B) + SOH + "16=" + std::to_string(E) + SOH));
+		garbage = false; reply = w.take_out(&garbage);
+		if (verbose) { fprintf(stderr, "  %s ResendRequest(%d,%d), latest=%ld\n", which, B, E, last_now); for (auto& m : reply) fprintf(stderr, "  REPLY %s\n", vh::show(m).c_str()); }
+		if (garbage) { V("reply-wellformed", "wire-unparseable", "", ""); return -1; }
 		long announced = 0;	// last NewSeqNo announced
 		size_t ri = 0;
-		if (c.B == 0 || (c.E != 0 && c.B > c.E)) {
-			if (reply.size() != 1 || tagval(reply[0], 35) != "3") { V("invalid-range-rejected", "no-single-reject", std::to_string(reply.size()) + " messages", "one Reject"); goto done; }
+		if (B == 0 || (E != 0 && B > E)) {
+			if (reply.size() != 1 || tagval(reply[0], 35) != "3") { V("invalid-range-rejected", "no-single-reject", std::to_string(reply.size()) + " messages", "one Reject"); return -1; }
 			R.outcome("reject");
-		} else {
-			const long hi = (c.E == 0 || c.E > last) ? last : c.E;
-			long i = c.B;
-			auto is_fill = [&](const std::string& m) { return tagval(m, 35) == "4" && tagval(m, 123) == "Y"; };
-			while (i <= hi) {
-				auto it = store.find(i);
-				if (ri >= reply.size()) { V("range-covered", "reply-ends-early", "reply ended before number " + std::to_string(i), "replay or gap fill for every number " + std::to_string(c.B) + ".." + std::to_string(hi)); goto done; }
-				const std::string& m = reply[ri];
-				if (it != store.end()) {
-					if (tagval(m, 35) != "D" || atol(tagval(m, 34).c_str()) != i) { V("stored-replayed-in-order", "stored-message-not-replayed", "35=" + tagval(m, 35) + " 34=" + tagval(m, 34), "replay of stored message " + std::to_string(i)); goto done; }
-					if (tagval(m, 43) != "Y") { V("replay-flags", "possdup-missing", vh::show(m), "43=Y"); goto done; }
-					if (tagval(m, 122) != tagval(it->second, 52)) { V("replay-flags", "origsendingtime-differs", "122=" + tagval(m, 122), "122=" + tagval(it->second, 52)); goto done; }
-					if (body_tokens(m) != body_tokens(it->second)) { V("replay-faithful", "body-differs", body_tokens(m), body_tokens(it->second)); goto done; }
-					++i; ++ri;
-				} else {
-					long j = i; while (j <= hi && !store.count(j)) ++j;	// gap [i, j-1]
-					if (!is_fill(m)) { V("gaps-filled", "gap-not-filled", "35=" + tagval(m, 35) + " 34=" + tagval(m, 34), "SequenceReset-GapFill 34=" + std::to_string(i) + " 36=" + std::to_string(j)); goto done; }
-					long s34 = atol(tagval(m, 34).c_str()), n36 = atol(tagval(m, 36).c_str());
-					if (s34 != i) { V("gaps-filled", "gapfill-msgseqnum-not-first-of-gap", "34=" + std::to_string(s34) + " 36=" + std::to_string(n36), "34=" + std::to_string(i)); goto done; }
-					// the number after the gap; a gap that reaches the latest number may be announced up to any never-used number
-					if (n36 != j && !(j == last + 1 && n36 > j)) {
-						V("gaps-filled", n36 > j ? "gapfill-newseqno-beyond-gap" : "gapfill-newseqno-short", "34=" + std::to_string(s34) + " 36=" + std::to_string(n36), "36=" + std::to_string(j)); goto done; }
-					if (n36 > announced) announced = n36;
-					i = j; ++ri;
-				}
-			}
-			// whatever follows may only be gap fills over never-used numbers (well-formed: 34 = next uncovered, 36 > 34)
-			long nextunc = std::max(hi + 1, announced);
-			for (; ri < reply.size(); ++ri) {
-				const std::string& m = reply[ri];
-				long s34 = atol(tagval(m, 34).c_str()), n36 = atol(tagval(m, 36).c_str());
-				if (!is_fill(m)) { V("nothing-else-sent", "extra-message-in-reply", "35=" + tagval(m, 35) + " 34=" + tagval(m, 34), "only replays and gap fills"); goto done; }
-				// a fill that skips numbers which were used and lie outside the request is not faithful
-				if (s34 <= last && hi < last) { V("nothing-else-sent", "gapfill-over-unrequested-used-numbers", "34=" + std::to_string(s34) + " 36=" + std::to_string(n36), "nothing after number " + std::to_string(hi)); goto done; }
-				if (n36 <= s34 && !(s34 == n36)) { V("gaps-filled", "gapfill-not-increasing", "34=" + std::to_string(s34) + " 36=" + std::to_string(n36), "36 > 34"); goto done; }
-				if (n36 > announced) announced = n36;
-				(void)nextunc;
-			}
-			R.outcome("replayed");
+			return n_send_now + 1;	// the Reject consumed one number
 		}
+		const long hi = (E == 0 || E > last_now) ? last_now : E;
+		long i = B;
+		auto is_fill = [&](const std::string& m) { return tagval(m, 35) == "4" && tagval(m, 123) == "Y"; };
+		while (i <= hi) {
+			auto it = store.find(i);
+			if (ri >= reply.size()) { V("range-covered", "reply-ends-early", "reply ended before number " + std::to_string(i), "replay or gap fill for every number " + std::to_string(B) + ".." + std::to_string(hi)); return -1; }
+			const std::string& m = reply[ri];
+			if (it != store.end()) {
+				if (tagval(m, 35) != "D" || atol(tagval(m, 34).c_str()) != i) { V("stored-replayed-in-order", "stored-message-not-replayed", "35=" + tagval(m, 35) + " 34=" + tagval(m, 34), "replay of stored message " + std::to_string(i)); return -1; }
+				if (tagval(m, 43) != "Y") { V("replay-flags", "possdup-missing", vh::show(m), "43=Y"); return -1; }
+				if (tagval(m, 122) != tagval(it->second, 52)) { V("replay-flags", "origsendingtime-differs", "122=" + tagval(m, 122), "122=" + tagval(it->second, 52)); return -1; }
+				if (body_tokens(m) != body_tokens(it->second)) { V("replay-faithful", "body-differs", body_tokens(m), body_tokens(it->second)); return -1; }
+				++i; ++ri;
+			} else {
+				long j = i; while (j <= hi && !store.count(j)) ++j;	// gap [i, j-1]
+				if (!is_fill(m)) { V("gaps-filled", "gap-not-filled", "35=" + tagval(m, 35) + " 34=" + tagval(m, 34), "SequenceReset-GapFill 34=" + std::to_string(i) + " 36=" + std::to_string(j)); return -1; }
+				long s34 = atol(tagval(m, 34).c_str()), n36 = atol(tagval(m, 36).c_str());
+				if (s34 != i) { V("gaps-filled", "gapfill-msgseqnum-not-first-of-gap", "34=" + std::to_string(s34) + " 36=" + std::to_string(n36), "34=" + std::to_string(i)); return -1; }
+				// the number after the gap; a gap that reaches the latest number may be announced up to any never-used number
+				if (n36 != j && !(j == last_now + 1 && n36 > j)) {
+					V("gaps-filled", n36 > j ? "gapfill-newseqno-beyond-gap" : "gapfill-newseqno-short", "34=" + std::to_string(s34) + " 36=" + std::to_string(n36), "36=" + std::to_string(j)); return -1; }
+				if (n36 > announced) announced = n36;
+				i = j; ++ri;
+			}
+		}
+		// whatever follows may only be gap fills over never-used numbers (well-formed: 36 > 34)
+		for (; ri < reply.size(); ++ri) {
+			const std::string& m = reply[ri];
+			long s34 = atol(tagval(m, 34).c_str()), n36 = atol(tagval(m, 36).c_str());
+			if (!is_fill(m)) { V("nothing-else-sent", "extra-message-in-reply", "35=" + tagval(m, 35) + " 34=" + tagval(m, 34), "only replays and gap fills"); return -1; }
+			// a fill that skips numbers which were used and lie outside the request is not faithful
+			if (s34 <= last_now && hi < last_now) { V("nothing-else-sent", "gapfill-over-unrequested-used-numbers", "34=" + std::to_string(s34) + " 36=" + std::to_string(n36), "nothing after number " + std::to_string(hi)); return -1; }
+			if (n36 <= s34) { V("gaps-filled", "gapfill-not-increasing", "34=" + std::to_string(s34) + " 36=" + std::to_string(n36), "36 > 34"); return -1; }
+			if (n36 > announced) announced = n36;
+		}
+		R.outcome("replayed");
+		return std::max(n_send_now, announced);
+	};
+	{
+		long want = request(c.B, c.E, n_send, "first");
+		if (want < 0) goto done;
+		if (c.B2 >= 0) { sim::advance_ms(1000); want = request(c.B2, c.E2, want, "second"); if (want < 0) goto done; }
 		// the next new message continues from the last NewSeqNo announced (or the old next number)
-		long want = std::max(n_send, announced);
-		if (c.B == 0 || (c.E != 0 && c.B > c.E)) want = n_send + 1;	// the Reject consumed one number
+		sim::advance_ms(1000);
+		w.ses->send(World::nos("NEXT"));
+		std::vector<std::string> after = w.take_out(&garbage);
+		if (verbose) for (auto& m : after) fprintf(stderr, "  NEXT  %s\n", vh::show(m).c_str());
+		reply = after;
 		if (after.size() != 1 || tagval(after[0], 35) != "D") { V("continues-after", "next-send-missing", std::to_string(after.size()) + " messages", "one new application message"); goto done; }
 		if (atol(tagval(after[0], 34).c_str()) != want) { V("continues-after", "next-number-wrong", "34=" + tagval(after[0], 34), "34=" + std::to_string(want)); goto done; }
 		if (w.ses->is_shutdown()) { V("continues-after", "session-ended", "shutdown", "session continues"); goto done; }
@@ -127,9 +131,9 @@ int main(int argc, char **argv)
 {
 	vh::Run R(argc, argv);
 	GlobalLogger::set_levels(Logger::Levels(Logger::None));
-	const int N = (int)R.args.num("n", 3);
+	const int N = (int)R.args.num("n", 3), N2 = (int)R.args.num("n2", 3);	// n2: second requests for histories of up to n2 sends
 	if (R.single) {
-		Case c; sscanf(R.single_case.c_str(), "%d:%d:%d:%u:%d:%d", &c.pk, &c.acc, &c.n, &c.mask, &c.B, &c.E);
+		Case c; sscanf(R.single_case.c_str(), "%d:%d:%d:%u:%d:%d:%d:%d", &c.pk, &c.acc, &c.n, &c.mask, &c.B, &c.E, &c.B2, &c.E2);
 		run_case(R, c); R.finish(); return R.violations ? 1 : 0;
 	}
 	unsigned long long id = 0; bool sampled = false;
@@ -143,6 +147,11 @@ int main(int argc, char **argv)
 							if (R.out_of_time()) goto out;
 							Case c { pk, acc, n, mask, B, E };
 							run_case(R, c);
+							// a second request after a valid first one: the whole range again, the same range again, and the range after it
+							if (n <= N2 && B >= 1 && (E == 0 || B <= E)) for (int k = 0; k < 3; ++k) {
+								Case c2 = c; c2.B2 = k == 0 ? 1 : k == 1 ? B : (E ? E + 1 : n + 1); c2.E2 = k == 1 ? E : 0;
+								run_case(R, c2);
+							}
 							if (!sampled && n == 3 && mask == 5 && B == 2 && E == 0) { sampled = true; R.sample(case_str(c), "persist=file n=3 numbers 2,4 application 3 heartbeat; ResendRequest(2,0)"); }
 						}
 out:
